@@ -79,13 +79,19 @@ def USYM():
                      Node('x', 'R', 'x', True)], 'USYM')
 
 
+def USYMD():
+    """symbolic-name chain of depth 3 plus a root sibling (create_dir_all targets)"""
+    return Universe([Node('n1', 'R', None, symlen=1), Node('n4', 'R', None, symlen=2), Node('n1_n2', 'n1', None, symlen=2),
+                     Node('n1_n2_n3', 'n1_n2', None, symlen=1), Node('x', 'R', 'x', True)], 'USYMD')
+
+
 def U8():
     return Universe([Node('a', 'R', 'a'), Node('ab', 'R', 'ab'), Node('adb', 'R', 'a.b'), Node('a_b', 'a', 'b'),
                      Node('a_b_c', 'a_b', 'c'), Node('ab_c', 'ab', 'c'), Node('a_e', 'a', 'é'),
                      Node('a_b_c_d', 'a_b_c', 'd'), Node('x', 'R', 'x', True), Node('x_y', 'x', 'y', True)], 'U8')
 
 
-UNIVERSES = {'U5': U5, 'U4': U4, 'U3': U3, 'U8': U8, 'USYM': USYM}
+UNIVERSES = {'U5': U5, 'U4': U4, 'U3': U3, 'U8': U8, 'USYM': USYM, 'USYMD': USYMD}
 
 # a shape is a tuple of (var, kind) with kind in 'd' / 'f' for existing nodes, parents first
 
